@@ -1,0 +1,137 @@
+//go:build verif
+
+// Contracts for the deductive verifier in /verif (comment-only; compiled only with -tags verif).
+// Syntax: see /verif/DESIGN.md section 3.2. Nothing in this file is executable.
+package keeper
+
+// ---------------------------------------------------------------------------------------------
+// Pure price functions (C01)
+
+//@ func GetInputPrice
+//@   property C01
+//@   returns r
+//@   requires inputAmt > 0 && inputReserve > 0 && outputReserve > 0
+//@   requires !isnil(fee) && 0 <= raw(fee) && raw(fee) < DEC_ONE
+//@   let f = DEC_ONE - raw(fee)
+//@   ensures cp:      (inputReserve*DEC_ONE + f*inputAmt) * (outputReserve - r) >= inputReserve*outputReserve*DEC_ONE
+//@   ensures maximal: (inputReserve*DEC_ONE + f*inputAmt) * (outputReserve - (r+1)) < inputReserve*outputReserve*DEC_ONE
+//@   ensures range:   0 <= r && r < outputReserve
+//@   nopanic
+//@ end
+
+//@ func GetOutputPrice
+//@   property C01
+//@   returns p
+//@   requires outputAmt > 0 && inputReserve > 0 && outputReserve > outputAmt
+//@   requires !isnil(fee) && 0 <= raw(fee) && raw(fee) < DEC_ONE
+//@   let f = DEC_ONE - raw(fee)
+//@   ensures cp:      (inputReserve*DEC_ONE + f*p) * (outputReserve - outputAmt) >= inputReserve*outputReserve*DEC_ONE
+//@   ensures almost_minimal: p >= 2 ==> (inputReserve*DEC_ONE + f*(p-2)) * (outputReserve - outputAmt) < inputReserve*outputReserve*DEC_ONE
+//@   ensures positive: p >= 1
+//@   nopanic
+//@ end
+
+// ---------------------------------------------------------------------------------------------
+// Store families of the coinswap module (key constructor -> abstract map)
+
+//@ family pools    key types.GetPoolKey value types.Pool
+//@ family lptIndex key types.GetLptDenomKey value str
+//@ family nextSeq  key const:nextPoolSequence value uint64
+//@ family params   key const:params value types.Params
+//@ family stdDenom key global:types.KeyStandardDenom value str
+
+//@ define STD = ite(has(stdDenom), get(stdDenom), "")
+//@ define PARAMS = get(params)
+//@ define paramsOK(p) = !isnil(p.Fee) && raw(p.Fee) > 0 && raw(p.Fee) < DEC_ONE
+//@      && !isnil(p.UnilateralLiquidityFee) && raw(p.UnilateralLiquidityFee) >= 0 && raw(p.UnilateralLiquidityFee) < DEC_ONE
+//@      && !isnil(p.TaxRate) && raw(p.TaxRate) > 0 && raw(p.TaxRate) < DEC_ONE && p.PoolCreationFee.Amount > 0
+//@ define paramsStored = has(params) && paramsOK(get(params))
+//@ define FEEF = DEC_ONE - raw(get(params).Fee)
+//@ define poolAddrOf(p) = types.GetReservePoolAddr(p.LptDenom)
+//@ define poolOf(d) = get(pools, types.GetPoolId(d))
+//@ define hasPoolOf(d) = has(pools, types.GetPoolId(d))
+//@ define cpDenom(a, b) = ite(a == STD, b, a)
+//@ define pairOK(a, b) = a != b && (a == STD || b == STD) && hasPoolOf(cpDenom(a, b))
+//@ define rcptOf(s, r) = ite(isempty(r), s, r)
+// one swap leg on the ledger: s pays `sold` of ds to pool account p, p pays `bought` of db to r
+//@ define leg(b, s, r, p, ds, sold, db, bought) = credit(debit(credit(debit(b, s, ds, sold), p, ds, sold), p, db, bought), r, db, bought)
+
+// swapCoins: whole-ledger postcondition. Four sequential transfers on the bank ledger, nothing else.
+//@ func Keeper.swapCoins
+//@   property C02
+//@   returns err
+//@   let pa = poolAddrOf(poolOf(cpDenom(coinSold.Denom, coinBought.Denom)))
+//@   requires coinSold.Amount >= 0 && coinBought.Amount >= 0
+//@   modifies bal
+//@   ensures pair:   err == nil ==> pairOK(coinSold.Denom, coinBought.Denom)
+//@   ensures ledger: err == nil ==> bal == leg(old(bal), sender, rcptOf(sender, recipient), pa,
+//@                                             coinSold.Denom, coinSold.Amount, coinBought.Denom, coinBought.Amount)
+//@   ensures funded: err == nil ==> old(bal(sender, coinSold.Denom)) >= coinSold.Amount
+//@ end
+
+// calculateWithExactInput: price of one leg read from the pool's current reserves, fee from the stored params.
+//@ func Keeper.calculateWithExactInput
+//@   property C01
+//@   returns r, err
+//@   requires paramsStored
+//@   requires exactSoldCoin.Amount > 0
+//@   let pa = poolAddrOf(poolOf(cpDenom(exactSoldCoin.Denom, boughtTokenDenom)))
+//@   let X = bal(pa, exactSoldCoin.Denom)
+//@   let Y = bal(pa, boughtTokenDenom)
+//@   ensures pair:    err == nil ==> pairOK(exactSoldCoin.Denom, boughtTokenDenom) && X > 0 && Y > 0
+//@   ensures cp:      err == nil ==> (X*DEC_ONE + FEEF*exactSoldCoin.Amount) * (Y - r) >= X*Y*DEC_ONE
+//@   ensures maximal: err == nil ==> (X*DEC_ONE + FEEF*exactSoldCoin.Amount) * (Y - (r+1)) < X*Y*DEC_ONE
+//@   ensures range:   err == nil ==> 0 <= r && r < Y
+//@ end
+
+//@ func Keeper.calculateWithExactOutput
+//@   property C01
+//@   returns p, err
+//@   requires paramsStored
+//@   requires exactBoughtCoin.Amount > 0
+//@   let pa = poolAddrOf(poolOf(cpDenom(exactBoughtCoin.Denom, soldTokenDenom)))
+//@   let X = bal(pa, soldTokenDenom)
+//@   let Y = bal(pa, exactBoughtCoin.Denom)
+//@   ensures pair:    err == nil ==> pairOK(exactBoughtCoin.Denom, soldTokenDenom) && X > 0 && Y > exactBoughtCoin.Amount
+//@   ensures cp:      err == nil ==> (X*DEC_ONE + FEEF*p) * (Y - exactBoughtCoin.Amount) >= X*Y*DEC_ONE
+//@   ensures almost_minimal: err == nil && p >= 2 ==> (X*DEC_ONE + FEEF*(p-2)) * (Y - exactBoughtCoin.Amount) < X*Y*DEC_ONE
+//@   ensures positive: err == nil ==> p >= 1
+//@ end
+
+// Single-hop sell order.
+//@ func Keeper.TradeExactInputForOutput
+//@   property C01, C02
+//@   returns bought, err
+//@   requires paramsStored
+//@   requires input.Coin.Amount > 0
+//@   let sender = addr(input.Address)
+//@   let rcpt = rcptOf(sender, addr(output.Address))
+//@   let pa = poolAddrOf(poolOf(cpDenom(input.Coin.Denom, output.Coin.Denom)))
+//@   let X = bal(pa, input.Coin.Denom)
+//@   let Y = bal(pa, output.Coin.Denom)
+//@   modifies bal
+//@   ensures bound:   err == nil ==> bought >= output.Coin.Amount
+//@   ensures cp:      err == nil ==> (X*DEC_ONE + FEEF*input.Coin.Amount) * (Y - bought) >= X*Y*DEC_ONE
+//@   ensures maximal: err == nil ==> (X*DEC_ONE + FEEF*input.Coin.Amount) * (Y - (bought+1)) < X*Y*DEC_ONE
+//@   ensures ledger:  err == nil ==> bal == leg(old(bal), sender, rcpt, pa, input.Coin.Denom, input.Coin.Amount, output.Coin.Denom, bought)
+//@   ensures share:   err == nil && sender != pa ==> bal(pa, input.Coin.Denom) * bal(pa, output.Coin.Denom) >= X * Y
+//@ end
+
+// Single-hop buy order.
+//@ func Keeper.TradeInputForExactOutput
+//@   property C01, C02
+//@   returns sold, err
+//@   requires paramsStored
+//@   requires output.Coin.Amount > 0
+//@   let sender = addr(input.Address)
+//@   let rcpt = rcptOf(sender, addr(output.Address))
+//@   let pa = poolAddrOf(poolOf(cpDenom(output.Coin.Denom, input.Coin.Denom)))
+//@   let X = bal(pa, input.Coin.Denom)
+//@   let Y = bal(pa, output.Coin.Denom)
+//@   modifies bal
+//@   ensures bound:   err == nil ==> sold <= input.Coin.Amount
+//@   ensures cp:      err == nil ==> (X*DEC_ONE + FEEF*sold) * (Y - output.Coin.Amount) >= X*Y*DEC_ONE
+//@   ensures almost_minimal: err == nil && sold >= 2 ==> (X*DEC_ONE + FEEF*(sold-2)) * (Y - output.Coin.Amount) < X*Y*DEC_ONE
+//@   ensures ledger:  err == nil ==> bal == leg(old(bal), sender, rcpt, pa, input.Coin.Denom, sold, output.Coin.Denom, output.Coin.Amount)
+//@   ensures share:   err == nil && sender != pa ==> bal(pa, input.Coin.Denom) * bal(pa, output.Coin.Denom) >= X * Y
+//@ end
